@@ -1,6 +1,7 @@
 import PcfgVerif.Properties.ProbsCore
 import PcfgVerif.Lemmas.SoftFloatLemmas
 import PcfgVerif.Generated.CliOptions
+import PcfgVerif.Lemmas.TrainedListedE
 /-!
 # C06 — the saved grammar is the relative-frequency model of the segmentation
 
@@ -92,5 +93,30 @@ theorem C06_cli_passes_coverage :
     ("--alphabet", "program_info['alphabet_size']", "int", "'store'", "None", "None") ∈ Generated.CliOptions.trainerOptions ∧
     Generated.CliOptions.trainerAssign.all (fun a => a.2.1 != "<dynamic>") = true := by
   decide
+
+/-- **the Markov structure is always written when the coverage is strictly between 0 and 1 — however small its pseudo-count**: for a
+training list of n ≥ 1 valid passwords the line `M` of `grammar.txt` carries `(n/coverage − n) / (Σ counts + n/coverage − n)`,
+a positive number (for a high coverage and a short list the pseudo-count is well below 1: it is a weight, not a count, and must
+not be filtered like one) -/
+theorem C06_markov_always_listed (cov : Rat) (h0 : 0 < cov) (h1 : cov < 1) (n : Nat) (hn : 0 < n) (b : Trainer.SCtr) :
+    (cpsOfString "M", ((n : Rat) / cov - n) / (((Trainer.toQ b).map (·.2)).sum + ((n : Rat) / cov - n))) ∈ Trainer.baseList cov n b ∧
+    0 < (n : Rat) / cov - n := by
+  refine ⟨?_, Trainer.rat_markov_pos _ _ (Trainer.rat_cast_pos n hn) h0 h1⟩
+  unfold Trainer.baseList
+  have e1 : (cov == 1) = false := beq_eq_false_iff_ne.mpr (by grind)
+  have e0 : (cov == 0) = false := beq_eq_false_iff_ne.mpr (by grind)
+  have hitems : withMarkov ratOps (· - ·) 1 (· == 1) (· == 0) "M" cov (n : Rat) (Trainer.toQ b) =
+      Trainer.toQ b ++ [("M", (n : Rat) / cov - n)] := by
+    unfold withMarkov
+    simp only [e1, e0, Bool.false_eq_true, if_false]
+    rfl
+  rw [hitems]
+  refine List.mem_map.mpr ⟨("M", _), (calcProbs_mem ratOps _ "M" _).mpr ⟨(n : Rat) / cov - n, by simp, rfl⟩, ?_⟩
+  rw [totalCount_rat]
+  simp only [List.map_append, List.map_cons, List.map_nil, List.sum_append, List.sum_cons, List.sum_nil]
+  congr 2
+  show ((n : Rat) / cov - n) / _ = _
+  congr 1
+  grind
 
 end Pcfg.C06
